@@ -198,6 +198,37 @@ fn non_timestamp_values(claim: &str) -> Vec<String> {
     v.push(format!("\"{}0101T000000Z\"", y));
     v.push(format!("\"{}-1-1T0:0:0Z\"", y));
     v.push(format!("\"1{}-01-01T00:00:00Z\"", y));
+    // a complete timestamp (every strict shape, up to the longest one: nine fraction digits and a numeric offset)
+    // with text before or after it is text, not a timestamp - whatever a parser does with a prefix, a first
+    // line or the first N bytes. `other` is a complete timestamp on the rejecting side.
+    let other = if claim == "exp" { "1999-01-01T00:00:00Z" } else { "2999-01-01T00:00:00Z" };
+    let bases = [
+        format!("{}-01-01T00:00:00Z", y),
+        format!("{}-01-01T00:00:00+00:00", y),
+        format!("{}-01-01T00:00:00.5Z", y),
+        format!("{}-01-01T00:00:00.123+05:30", y),
+        format!("{}-01-01T00:00:00.123456789Z", y),
+        format!("{}-01-01T00:00:00.123456789-23:59", y),
+        format!("{}-01-01t00:00:00z", y),
+        format!("{}-01-01 00:00:00Z", y),
+    ];
+    let long_tail = "9".repeat(9_000);
+    for b in &bases {
+        let mut texts: Vec<String> = Vec::new();
+        for tail in ["junk", " ", "  ", "\n", "\r\n", "\r", "\t", "\u{0}", "Z", "z", "x", "0", ".", ",", ";", "+00:00", "[Europe/Paris]", "[u-ca=iso8601]", "\u{2028}", "\u{a0}", "\u{feff}", long_tail.as_str()] {
+            texts.push(format!("{}{}", b, tail));
+        }
+        for sep in ["\n", "\r\n", " ", ",", "/", "\u{0}", "\t"] {
+            texts.push(format!("{}{}{}", b, sep, other));
+            texts.push(format!("{}{}{}", other, sep, b));
+        }
+        for head in [" ", "\n", "\r\n", "\t", "\u{feff}", "x", "+", "\u{0}", "\"", "0"] {
+            texts.push(format!("{}{}", head, b));
+        }
+        for t in texts {
+            v.push(serde_json::to_string(&t).unwrap());
+        }
+    }
     v
 }
 
